@@ -26,6 +26,15 @@ import PegVerif.Model.Basic
 -/
 namespace PegVerif
 
+/-- The case keys of one `-switch` case: code points as a list of inclusive ranges (the generator
+    enumerates every code point of a first set; `.` alone has 1 114 112 of them). -/
+abbrev KeySet := List (Nat × Nat)
+
+def KeySet.has (ks : KeySet) (c : Nat) : Bool := ks.any (fun r => decide (r.1 ≤ c) && decide (c ≤ r.2))
+
+/-- Number of code points (`class.Len()` in the generator). -/
+def KeySet.card (ks : KeySet) : Nat := ks.foldl (fun acc r => acc + (r.2 + 1 - r.1)) 0
+
 inductive Expr where
   | dot
   | chr (c : Sym)
@@ -38,7 +47,7 @@ inductive Expr where
   | act (code : String)
   | seq (es : List Expr)
   | alt (es : List Expr)
-  | ualt (keys : List (List Sym)) (es : List Expr)
+  | ualt (keys : List KeySet) (es : List Expr)
   | peekFor (e : Expr)
   | peekNot (e : Expr)
   | query (e : Expr)
